@@ -320,8 +320,12 @@ func (db *ContractDB) loadFile(path string, extern bool) error {
 				return fmt.Errorf("%s:%d: bad loop clause", path, ln)
 			}
 			switch m[1] {
-			case "invariant", "decreases":
-				x, err := parseExprAt(m[4], path, ln)
+			case "invariant", "decreases", "increases":
+				txt := m[4]
+				if i := strings.Index(txt, " unless "); i >= 0 && m[1] == "increases" {
+					txt = txt[:i]
+				}
+				x, err := parseExprAt(txt, path, ln)
 				if err != nil {
 					return err
 				}
@@ -329,6 +333,20 @@ func (db *ContractDB) loadFile(path string, extern bool) error {
 				if m[1] == "invariant" {
 					cur.LoopInv[n] = append(cur.LoopInv[n], c)
 				} else {
+					// "increases E unless C": progress measure without a bound
+					if m[1] == "increases" {
+						if i := strings.Index(m[4], " unless "); i >= 0 {
+							x2, err := parseExprAt(m[4][:i], path, ln)
+							if err != nil {
+								return err
+							}
+							u, err := parseExprAt(m[4][i+8:], path, ln)
+							if err != nil {
+								return err
+							}
+							c.Expr, c.When = x2, u
+						}
+					}
 					cur.LoopDec[n] = c
 				}
 			case "modifies":
